@@ -467,3 +467,4 @@ package raft
 
 //@ func Raft.sendInstallSnapshot
 //@   flags inline lockheld
+//@   at before-assign follower.nextIndex assume [A-SNAP-LABEL] newval <= Llast + 1
